@@ -1321,6 +1321,9 @@ class System:
             # Else, the last added module wins
             self._remove(first)
             self.unprocessed_modules.remove(first)
+            if first in self.rootobjects:
+                # The replaced module is not a root of the system anymore.
+                self.rootobjects.remove(first)
             # The modules of a replaced package are gone with it.
             for mod in list(self.unprocessed_modules):
                 ancestor = mod.parent
